@@ -59,6 +59,10 @@ func main() {
 		}
 		return
 	}
+	if strings.Contains(*prop, ",") {
+		// self-test tooling: -prop C01,C02,... -evidence <dir>
+		os.Exit(runPropertiesShared(*repo, strings.Split(*prop, ","), *tier, *evid, *known))
+	}
 	rc := runProperty(*repo, *prop, *tier, *evid, *known)
 	if os.Getenv("DBFTLINT_DEBUG_STEPS") != "" {
 		fmt.Println("max demand steps", maxDemandSteps)
